@@ -263,7 +263,11 @@ def _worker(args):
         except Reject as e:
             w['excluded'][str(e)[:70]] += 1
             return
-        out = check_fn(case)
+        try:
+            out = check_fn(case)
+        except Reject as e:
+            w['excluded'][str(e)[:70]] += 1
+            return
         key = case.key()
         w['evaluations'] += 1
         w['keys'].add(key)
@@ -329,7 +333,10 @@ def run_generated(report, gen_fn, check_fn, n_cases, workers, stage='generated',
                 return False
             except Exception:
                 return False
-            out = check_fn(case)
+            try:
+                out = check_fn(case)
+            except Reject:
+                return False
             for c2, d2 in out.failures:
                 if c2 == clause:
                     still_fails.last = (case, d2, list(ch.record))
